@@ -247,7 +247,7 @@ def feedback_case(draw, kind):
 
 def strata(tier):
     q = tier == "quick"
-    fams = ["tetra", "box", "para", "prism", "pyramid", "bipyramid", "hull"]
+    fams = ["tetra", "box", "para", "prism", "pyramid", "bipyramid", "hull", "quirk"]
     out = [
         Stratum("polygon/3-5", "hyp", PC.polygon_case(3, 5), 250 if q else 6000),
         Stratum("polygon/6-8", "hyp", PC.polygon_case(6, 8), 400 if q else 12000),
